@@ -15,7 +15,7 @@ pub fn def() -> PropDef {
         run_unit,
         replay,
         required_probes: &["ToInt_Fast", "ToInt_Rescale", "Tows_DownU64", "Tows_DownBig", "Tows_UpU64", "Tows_UpBig"],
-        rule: "seeded decimals of 1..60 digits at scales -40..40 concentrated on values within +-2 and +-0.5 of every integer type's MIN and MAX (written at scales 0..3 and as negative-scale representations k*10^j), fractions in (-1,1), small unscaled values pushed past a limit by a negative scale, zeros with any scale; each through to_i8..to_i128, to_u8..to_u128, to_isize/to_usize, to_bigint on value and reference, and is_integer, judged against trunc(value) in the model (signed: Some iff it fits; unsigned: None for every negative decimal, else Some iff it fits); constructors From<prim>, From<&prim>, From<BigInt>, From<(T, i64)>, FromPrimitive::from_* for MIN/MAX/0/+-1/random of every primitive type must store the exact integer at scale 0 (resp. the given scale). distinct = distinct decimals; non-trivial = non-zero fractional part or magnitude within 2 of a type limit",
+        rule: "exhaustive small scope: every |n| <= 20000 x scales -6..6; then seeded decimals of 1..60 digits at scales -40..40 concentrated on values within +-2 and +-0.5 of every integer type's MIN and MAX (written at scales 0..3 and as negative-scale representations k*10^j), fractions in (-1,1), small unscaled values pushed past a limit by a negative scale, zeros with any scale; each through to_i8..to_i128, to_u8..to_u128, to_isize/to_usize, to_bigint on value and reference, and is_integer, judged against trunc(value) in the model (signed: Some iff it fits; unsigned: None for every negative decimal, else Some iff it fits); constructors From<prim>, From<&prim>, From<BigInt>, From<(T, i64)>, FromPrimitive::from_* for MIN/MAX/0/+-1/random of every primitive type must store the exact integer at scale 0 (resp. the given scale). distinct = distinct decimals; non-trivial = non-zero fractional part or magnitude within 2 of a type limit",
     }
 }
 
@@ -23,11 +23,13 @@ fn plan(tier: Tier) -> Vec<Unit> {
     match tier {
         Tier::Quick => {
             let mut v = crate::util::split_budget("convert", 1_000_000, 10_000);
+            v.extend(crate::util::split_budget("small", 40_001, 1_000));
             v.extend(crate::util::split_budget("construct", 40_000, 1_000));
             v
         }
         Tier::Thorough => {
             let mut v = crate::util::split_budget("convert", 120_000_000, 100_000);
+            v.extend(crate::util::split_budget("small", 40_001, 500));
             v.extend(crate::util::split_budget("construct", 3_000_000, 10_000));
             v
         }
@@ -95,6 +97,19 @@ fn run_unit(unit: &Unit, r: &mut Rng, ctx: &mut Ctx) {
                 let d = gen_value(r);
                 let case = Case::new("convert").push(d.tok());
                 check_case(&case, ctx);
+            }
+        }
+        "small" => {
+            // exhaustive: every |n| <= 20000 x scale -6..=6
+            for idx in unit.start..unit.start + unit.count {
+                let n = idx as i64 - 20_000;
+                for s in -6i64..=6 {
+                    let case = Case::new("convert").push(Dec::new(BigInt::from(n), s).tok());
+                    check_case(&case, ctx);
+                }
+            }
+            if unit.start == 0 {
+                ctx.exhaustive_notes.push("C15 small scope: every |n| <= 20000 x scales -6..6 (520 013 values x 14 conversions on value and reference)".into());
             }
         }
         "construct" => {
